@@ -254,8 +254,13 @@ defvjp(
 )
 defvjp(
     anp.linspace,
-    lambda ans, start, stop, num: lambda g: anp.dot(anp.linspace(1.0, 0.0, num), g),
-    lambda ans, start, stop, num: lambda g: anp.dot(anp.linspace(0.0, 1.0, num), g),
+    # contract the sample axis (the first one), then sum over the axes the other end point broadcast
+    lambda ans, start, stop, num: unbroadcast_f(
+        start, lambda g: anp.tensordot(anp.linspace(1.0, 0.0, num), g, axes=(0, 0))
+    ),
+    lambda ans, start, stop, num: unbroadcast_f(
+        stop, lambda g: anp.tensordot(anp.linspace(0.0, 1.0, num), g, axes=(0, 0))
+    ),
 )
 
 defvjp(
